@@ -83,15 +83,22 @@ LexOK(toks) == toks # LexError
 (***************************************************************************)
 (* ts-rs: how names reach the output (macros/src/utils.rs)                 *)
 (***************************************************************************)
-\* raw_name_to_ts_field: alphanumeric / _ / $ only, and not starting with a digit => bare, else "value"
-\* (no escaping of the value)
+\* raw_name_to_ts_field: alphanumeric / _ / $ only, and not starting with a digit (and not empty) => bare,
+\* else "value"; the value between the quotes is escaped (escape_ts_string: backslash, double quote, line break)
 NeedsQuotes(name) ==
   \/ \E i \in DOMAIN name : name[i].k \notin {"letter", "digit"}
   \/ (name # <<>> /\ name[1].k = "digit")
 DQ == Ch("\"", "punct")
-FieldKey(name) == IF NeedsQuotes(name) THEN <<DQ>> \o name \o <<DQ>> ELSE name
-\* variant names, tags and contents are always interpolated between double quotes, unescaped
-Quoted(name) == <<DQ>> \o name \o <<DQ>>
+BSl == Ch("\\", "punct")
+RECURSIVE EscapeTs(_)
+EscapeTs(cs) == IF cs = <<>> THEN <<>>
+                ELSE (IF cs[1].c = "\\" THEN <<BSl, BSl>>
+                      ELSE IF cs[1].c = "\"" THEN <<BSl, DQ>>
+                      ELSE IF cs[1].k = "nl" THEN <<BSl, Ch("n", "letter")>>
+                      ELSE <<cs[1]>>) \o EscapeTs(Tail(cs))
+FieldKey(name) == IF NeedsQuotes(name) \/ name = <<>> THEN <<DQ>> \o EscapeTs(name) \o <<DQ>> ELSE name
+\* variant names, tags and contents are always written between double quotes, escaped
+Quoted(name) == <<DQ>> \o EscapeTs(name) \o <<DQ>>
 
 \* the property's view: the rendered key must lex to exactly one token (an identifier or a string)
 OneKeyToken(chars) == LET t == Lex(chars) IN LexOK(t) /\ Len(t) = 1 /\ t[1].t \in {"id", "str"}
